@@ -57,7 +57,9 @@ PrimM3(v, p) ==
     [] p = "number"  -> B3(v.k = "num")
     [] p = "numberkey" -> IF v.k = "num" THEN "X" ELSE "F"     \* the number part of keyof { [k: string]: T } (contested)
     [] p = "boolean" -> B3(v.k = "bool")
-    [] p \in {"null", "undefined", "void"} -> B3(IsNullish(v))
+    \* beff's validators take null and undefined for each other; TypeScript does not: the crossed cases are contested
+    [] p = "null" -> IF v.k = "null" THEN "T" ELSE IF IsNullish(v) THEN "X" ELSE "F"
+    [] p \in {"undefined", "void"} -> IF v.k = "null" THEN "X" ELSE B3(IsNullish(v))
     [] p \in {"any", "unknown"} -> "T"
     [] p = "never"   -> "F"
     [] p = "bigint"  -> B3(v.k = "big")
@@ -84,11 +86,7 @@ MergeObj(a, b, env) ==
   LET fromA == [i \in DOMAIN a.ps |->
                  LET p == a.ps[i] IN
                  IF HasProp(b, p.key)
-                 THEN LET q == b.ps[PropIdx(b, p.key)]
-                          \* an optional property also admits null / undefined; against a required side that part takes part
-                          \* in the intersection (as the members taken one by one do)
-                          Side(x, y) == IF x.opt /\ ~y.opt THEN Uni(<<x.ty, TNull, TUndef>>) ELSE x.ty
-                      IN Prop(p.key, Inter(<<Side(p, q), Side(q, p)>>), p.opt /\ q.opt)
+                 THEN LET q == b.ps[PropIdx(b, p.key)] IN Prop(p.key, Inter(<<p.ty, q.ty>>), p.opt /\ q.opt)
                  ELSE IF KeyStaticallyIn(p.key, b, env) THEN UnderIx(p, b.ix[1].vt)
                  ELSE p]
       onlyB == SelectSeq(b.ps, LAMBDA q : ~HasProp(a, q.key))
@@ -132,7 +130,10 @@ ObjM3(v, T, env, D, s) ==
     LET declared == {T.ps[i].key : i \in DOMAIN T.ps}
         propV == { LET p == T.ps[i]  g == Get(v, p.key) IN
                    IF p.opt /\ "nn" \in DOMAIN p THEN (IF HasKey(v, p.key) THEN M3(g, p.ty, env, D, s) ELSE "T")
-                   ELSE IF p.opt THEN Or3({B3(IsNullish(g)), M3(g, p.ty, env, D, s)})
+                   \* an optional property may be absent or undefined.  beff's validators also take null for it, TypeScript does not:
+                   \* a present null that the property's type does not admit is contested
+                   ELSE IF p.opt THEN (IF g.k = "null" /\ M3(g, p.ty, env, D, s) = "F" THEN "X"
+                                       ELSE Or3({B3(IsNullish(g)), M3(g, p.ty, env, D, s)}))
                    ELSE IF HasKey(v, p.key) THEN M3(g, p.ty, env, D, s)
                    ELSE IF M3(VUndef, p.ty, env, D, s) = "F" THEN "F" ELSE "X"   \* required, absent, undefined allowed: contested
                  : i \in DOMAIN T.ps }
